@@ -87,6 +87,9 @@ PairErr(c1, c2, G, plo, phi, T, inlist, exact, up, down) ==
     ELSE IF ~(\A g \in M : FloorOK(c1, c2, g, T)) THEN 1104                      \* below a minimum floor
     ELSE IF ~(\A g \in M : PMaybe(plo, phi, T.pth, g)) THEN 1105                 \* corrected p-value not below threshold
     ELSE IF ~(exact => \A g \in M : StrictMaybe(c1, c2, g, T)) THEN 1106         \* exact penetrance: only strict genes
+    \* the penetrance q1 = max(ge1/n) is one correctly rounded division and the threshold one correctly
+    \* rounded constant: equal rationals give equal floats, so "strictly above" is decided exactly
+    ELSE IF ~(exact => \A g \in M : Q1Cmp(c1, c2, g, T.q1) = 1) THEN 1116          \* exact penetrance: q1 on the strict threshold
     ELSE IF ~(\A g \in up : IsUp(c1, c2, g)) THEN 1107                           \* direction = sign of mean difference
     ELSE IF ~(\A g \in down : ~IsUp(c1, c2, g) /\ MeansDiffer(c1, c2, g)) THEN 1108
     ELSE IF ~(EnoughCells(c1, c2) =>
